@@ -33,7 +33,7 @@ Proof.
   unfold tabs_ok. rewrite !mget_mset_other by tauto. auto.
 Qed.
 
-Notation P := aes_prog.
+Local Notation P := aes_prog.
 
 Ltac blocks_tac :=
   lazymatch goal with
